@@ -425,6 +425,26 @@ func limitsFor(c int) []int {
 	return out
 }
 
+// limitGrid: the boundary grid of the limit dimension (de-duplicated, ascending apart from
+// the c-relative values): {minInt, minInt+1, -maxInt, -2, -1, 0, 1, c-1, c, c+1, maxInt-1, maxInt}.
+func limitGrid(c int) []int {
+	minInt := -maxInt - 1
+	cand := []int{minInt, minInt + 1, -maxInt, -2, -1, 0, 1, c - 1, c}
+	if c < maxInt {
+		cand = append(cand, c+1)
+	}
+	cand = append(cand, maxInt-1, maxInt)
+	seen := map[int]bool{}
+	var out []int
+	for _, l := range cand {
+		if !seen[l] {
+			seen[l] = true
+			out = append(out, l)
+		}
+	}
+	return out
+}
+
 func sameLog(a, b []string) bool {
 	if len(a) != len(b) {
 		return false
@@ -720,9 +740,31 @@ func (w *worker) evalOp(p *prepared) {
 		if !fullGate && seenC[cref] {
 			return
 		}
+		firstC := !seenC[cref]
 		seenC[cref] = true
-		for li, l := range limitsFor(cref) {
+		core := limitsFor(cref)
+		for li, l := range core {
 			w.gate(append(order, li), p, as, es, cref, l, &base)
+		}
+		// the whole boundary grid of limits (negative and huge ones included) for the first
+		// assignment that reaches each distinct complexity value of this operation: through
+		// FixedComplexityLimit (fresh executor per limit) and, as one history in grid order, through
+		// a long-lived executor with the per-request ComplexityLimit{Func}
+		if firstC {
+			var hist []histReq
+			for li, l := range limitGrid(cref) {
+				isCore := false
+				for _, c := range core {
+					isCore = isCore || c == l
+				}
+				if !isCore {
+					w.counts["gate_runs_limit_grid_extension"]++
+					w.gate(append(order, 100+li), p, as, es, cref, l, &base)
+				}
+				hist = append(hist, histReq{Label: "same request", RawVars: p.rawVars, Limit: l, cref: cref, base: &base})
+			}
+			w.counts["limit_grid_dynamic_histories"]++
+			w.runHistory(append(order, 1<<21-1), es, p.text, as, false, hist, rp)
 		}
 		// limit family: the same request with different per-request limits through one
 		// long-lived executor with ComplexityLimit{Func}
